@@ -291,6 +291,43 @@ fn run_op(db: &mut FixtureDatabase, op: &Value) -> Value {
                 }
             }
         }
+        "par_analyze" => {
+            // C09: several threads, each analysing its own list of (distinct) files on the SAME
+            // database, started together; the quiescent index is dumped
+            let lists: Vec<Vec<Value>> = op
+                .get("threads")
+                .and_then(|v| v.as_array())
+                .map(|a| a.iter().map(|t| t.as_array().cloned().unwrap_or_default()).collect())
+                .unwrap_or_default();
+            let barrier = std::sync::Barrier::new(lists.len());
+            let dbr: &FixtureDatabase = db;
+            std::thread::scope(|sc| {
+                for l in &lists {
+                    let b = &barrier;
+                    sc.spawn(move || {
+                        b.wait();
+                        for o in l {
+                            let p = PathBuf::from(s(o, "path"));
+                            if s(o, "op") == "analyze_fresh" {
+                                dbr.verif_analyze_file_fresh(p, s(o, "text"));
+                            } else {
+                                dbr.analyze_file(p, s(o, "text"));
+                            }
+                        }
+                    });
+                }
+            });
+            dump(db)
+        }
+        "mark" => {
+            if let Ok(path) = std::env::var("DASHMAP_OPLOG") {
+                use std::io::Write;
+                if let Ok(mut f) = std::fs::OpenOptions::new().create(true).append(true).open(path) {
+                    let _ = writeln!(f, "MARK {}", s(op, "text"));
+                }
+            }
+            Value::Null
+        }
         "cli" => {
             // what the CLI computes (unused list, per-(file, name) counts) next to the
             // server's reference list of EVERY definition (C20)
